@@ -702,7 +702,7 @@ def items(tier):
     q = tier == "quick"
     out = []
     out.append(dict(kind="string-crosshair", id="string-crosshair-len3", func="direction_string_ok_len3", timeout_s=30, timeout=400))
-    out.append(dict(kind="string-crosshair", id="string-crosshair-len1", func="direction_string_ok_len1", timeout_s=100, timeout=400))
+    out.append(dict(kind="string-crosshair", id="string-crosshair-len1", func="direction_string_ok_len1", timeout_s=250, timeout=900))
     out.append(dict(kind="string-crosshair", id="string-crosshair-twin", func="twin_parser_rejects_everything", timeout_s=30,
                     twin=True, timeout=400))
     nstr = sum(len(ALPHABET) ** k for k in range(4))
